@@ -637,6 +637,21 @@ func (c *Check) demanglerModes() string {
 	}
 	for _, v := range sortedBoolKeys(vals) {
 		reach := reachUnder(dm, func(cond ssa.Value) int {
+			// the modes may be the keys of a package-level table: `opts, ok := table[mode]`
+			if ex, ok := cond.(*ssa.Extract); ok && ex.Index == 1 {
+				if lk, ok := ex.Tuple.(*ssa.Lookup); ok && lk.CommaOk && lk.Index == ssa.Value(dm.Params[mode]) {
+					if ld, ok := lk.X.(*ssa.UnOp); ok {
+						if gl, ok := ld.X.(*ssa.Global); ok {
+							for _, k := range stringsStoredInGlobal(p, gl) {
+								if k == v {
+									return 1
+								}
+							}
+							return -1
+						}
+					}
+				}
+			}
 			cmp, ok := cond.(*ssa.BinOp)
 			if !ok || (cmp.Op != token.EQL && cmp.Op != token.NEQ) {
 				return 0
